@@ -162,6 +162,13 @@ def judge_push(pm):
             if v in deps and not deps[v] <= roots:
                 roots |= deps[v]
                 changed = True
+    # measured in bytes: the text offsets are byte offsets, a length in characters is shorter for non-ASCII text
+    btxt = sq(keys[0]['args'][1])
+    char_len = [n for n in sx.walk(pm['body']) if n.get('k') == 'mcall' and n['m'] in ('count', 'width') and 'chars()' in sq(n['recv'])]
+    if char_len and any(v_ in roots or 'chars()' in btxt for v_ in [x_['pat']['n'] for x_ in sx.walk(pm['body']) if x_.get('k') == 'let' and x_.get('pat', {}).get('k') == 'ident' and 'init' in x_
+                                                                   and any(z is char_len[0] for z in sx.walk(x_['init']))] + ['\0']):
+        return 'wrong', ('the end of the key (%s) is computed from a CHARACTER count of the appended text; the text and all offsets are in bytes, so for non-ASCII text the '
+                         'recorded segment is shorter than what was appended and its last bytes have no origin' % B), t
     foreign = sorted(r_ for r_ in roots if r_ in pn and r_ != t)
     if foreign:
         return 'wrong', ('the end of the key (%s) depends on the parameter `%s`, not only on the length of the appended text: the recorded segment can be shorter '
